@@ -726,6 +726,11 @@ func (interp *Interpreter) cfg(root *node, sc *scope, importPath, pkgName string
 					err = n.cfgErrorf("cannot use _ as value")
 					break
 				}
+				if (isRegularCall(src) || isBinCall(src, sc)) && src.child[0].typ.numOut() != 1 {
+					// A call in a single-value context must return exactly one value.
+					err = n.cfgErrorf("assignment mismatch: 1 variable but %s returns %d values", src.child[0].name(), src.child[0].typ.numOut())
+					break
+				}
 				if n.kind == defineStmt || (n.kind == assignStmt && dest.ident == "_") {
 					if atyp != nil {
 						dest.typ = atyp
